@@ -19,8 +19,18 @@ ASSUMPTIONS = [
 BUDGET = {"quick": (16, 150), "thorough": (16, 8000)}
 
 
+t_event = st.one_of(
+    st.tuples(st.just("connect")), st.tuples(st.just("connect")),
+    st.tuples(st.sampled_from(["send_ka", "send_close"]), st.integers(0, 5)),
+    st.tuples(st.sampled_from(["send_ka", "send_close"]), st.integers(0, 5)),
+    st.tuples(st.just("handler"), st.integers(0, 3)),
+    st.tuples(st.just("time"), st.sampled_from([0.5, 1.0])),
+)
+t_scene = st.integers(1, 4).map(lambda n: [["connect"]] * n + [["time", 0.5]] + [["send_close", i] for i in range(n)] + [["handler", 0]])
+
+
 def strategy(tier):
-    return st.fixed_dictionaries({
+    w = st.fixed_dictionaries({
         "engine": st.just("W"),
         "kind": st.sampled_from(list(wenv.KINDS)),
         "max_requests": st.sampled_from([0, 0, 1, 2, 3, 4, 5, 6]),
@@ -29,6 +39,15 @@ def strategy(tier):
         "keepalive": st.sampled_from([0, 2, 2]),
         "plan": st.lists(st.integers(1, 4), min_size=1, max_size=40),
     })
+    t = st.fixed_dictionaries({
+        "engine": st.just("T"),
+        "threads": st.integers(1, 2),
+        "keepalive": st.sampled_from([0, 2]),
+        "max_requests": st.integers(1, 3),
+        "events": st.one_of(st.lists(t_event, min_size=2, max_size=25).map(lambda l: [list(e) for e in l]),
+                            st.lists(t_scene, min_size=1, max_size=3).map(lambda ls: [e for l in ls for e in l])),
+    })
+    return st.one_of(w, w, t)
 
 
 def extra_cases(tier, seed, shard, nshards):
@@ -37,6 +56,35 @@ def extra_cases(tier, seed, shard, nshards):
     for i, c in enumerate(cs):
         if (i + seed) % nshards == shard:
             yield c
+
+
+def run_tsim(case):
+    """gthread main loop on the scripted poller (engine T) with max_requests: which requests are still answered at the recycle?"""
+    from vlib import tsim
+    sim = tsim.Sim(case["threads"], 10, case["keepalive"], [list(e) for e in case["events"]], max_requests=case["max_requests"])
+    sim.patient_clients = True
+    err = tsim.run(sim)
+    vio = []
+    lost_dispatched, lost_accepted = [], []
+    for c in sim.conns:
+        sent = c.request_count
+        got = b"".join(c.out).count(b"HTTP/1.1 200 OK")
+        if c.client_closed or sent == 0 or got >= 1:
+            continue
+        (lost_dispatched if c.cid in sim.dispatched else lost_accepted).append(c.cid)
+    recycled = not sim.worker.alive and sim.app_calls >= case["max_requests"]
+    if err:
+        vio.append(Violation("loop-survives", "C18/gthread-loop-failed:" + err.split(":")[0], observed={"error": err, "case": case}))
+    elif recycled and lost_dispatched:
+        vio.append(Violation("in-flight-answered", "C18/dispatched-request-dropped-at-recycle:gthread",
+                             observed={"conns": lost_dispatched, "cancelled": sim.cancelled, "trace": sim.trace[-12:], "case": case},
+                             expected="requests already handed to the pool are answered"))
+    elif recycled and lost_accepted:
+        vio.append(Violation("no-request-lost", "C18/request-lost-at-recycle:gthread:sequential",
+                             observed={"conns": lost_accepted, "trace": sim.trace[-12:], "case": case},
+                             expected="accepted connections are answered"))
+    return Outcome(vio, recycled, ["engine:T", "recycled:%s" % recycled, "threads:%d" % case["threads"]],
+                   sample={"case": case, "app_calls": sim.app_calls, "lost": [lost_dispatched, lost_accepted]})
 
 
 def run_closed_listener(case):
@@ -72,6 +120,8 @@ def run_case(case):
         return c18_real.run_case(case)
     if case.get("engine") == "Wlistener":
         return run_closed_listener(case)
+    if case.get("engine") == "T":
+        return run_tsim(case)
     import gunicorn.workers.base as wb
     kind = case["kind"]
     mr, jit = case["max_requests"], case["jitter"]
